@@ -45,6 +45,15 @@ Get(v, name) == v.c[CHOOSE i \in 1..Len(v.n) : v.n[i] = name]
 
 EmptyFn == [x \in {} |-> 0]
 
+(* equality of values up to the order of struct fields *)
+RECURSIVE SameVal(_, _)
+SameVal(a, b) ==
+  /\ a.t = b.t /\ a.b = b.b /\ Len(a.c) = Len(b.c)
+  /\ IF a.t = "s"
+     THEN /\ Len(a.n) = Len(b.n)
+          /\ \A i \in 1..Len(a.n) : Has(b, a.n[i]) /\ SameVal(a.c[i], Get(b, a.n[i]))
+     ELSE \A i \in 1..Len(a.c) : SameVal(a.c[i], b.c[i])
+
 DecErr == {"Length", "FixedValue", "EnumValue", "ArraySize", "TrailingBytes",
            "TrailingBytesInArray", "ConstraintValue"}
 EncErr == {"InvalidScalarValue", "SizeOverflow", "CountOverflow",
@@ -445,24 +454,32 @@ Accepts(d, id, input) == DecodeFull(d, id, input).faults = {}
 (* `ov`: overrides for derived / constant bit-fields, a function from      *)
 (* <<declaration id, field index>> to bits.  Empty for the reference       *)
 (* encoding; a single entry builds a semantic single-fault mutant.         *)
-EncInit == [out |-> <<>>, cb |-> <<>>, faults |-> {}]
+(* `chunks`: the octet ranges [o |-> offset, n |-> length] that are written  *)
+(* in file byte order - bit-field groups, multi-octet scalar / enum / custom *)
+(* values - recursively through structs and child payloads.  They are the    *)
+(* chunk map of the endianness duality (C17).                                *)
+EncInit == [out |-> <<>>, cb |-> <<>>, faults |-> {}, chunks |-> <<>>]
 
 EFault(st, e) == [st EXCEPT !.faults = @ \cup {e}]
 
-ERes(faults, bytes) == [faults |-> faults, bytes |-> bytes]
+EResC(faults, bytes, chunks) == [faults |-> faults, bytes |-> bytes, chunks |-> chunks]
+ERes(faults, bytes) == EResC(faults, bytes, <<>>)
+
+Shift(chunks, off) == [i \in 1..Len(chunks) |-> [o |-> chunks[i].o + off, n |-> chunks[i].n]]
 
 FitsNat(n, w) == w >= 31 \/ n < 2 ^ w
 
-RECURSIVE EncodeTypeF(_, _, _, _, _), EncField(_, _, _, _, _, _, _, _), EncFieldsFrom(_, _, _, _, _, _, _, _),
-          EncElemsFrom(_, _, _, _, _, _)
+RECURSIVE EncodeTypeF(_, _, _, _, _), EncField(_, _, _, _, _, _, _, _, _), EncFieldsFrom(_, _, _, _, _, _, _, _, _),
+          EncElemsFrom(_, _, _, _, _, _), PartChunks(_, _, _, _)
 
-(* one element: [faults, bytes] *)
+(* one element: [faults, bytes, chunks] *)
 EncScalarLike(d, isEnum, e, w, node) ==
   IF node.t # "u" \/ w % 8 # 0 THEN ERes({"BadValue"}, <<>>)
-  ELSE ERes((IF ~FitsLimbs(node.b, w) THEN {"InvalidScalarValue"} ELSE {})
-            \cup (IF isEnum /\ FitsLimbs(node.b, w) /\ ~EnumValidBits(e, BitsOfLimbs(node.b, w))
-                  THEN {"InvalidEnumValue"} ELSE {}),
-            PackGroup(BitsOfLimbs(node.b, w), IsBig(d)))
+  ELSE EResC((IF ~FitsLimbs(node.b, w) THEN {"InvalidScalarValue"} ELSE {})
+             \cup (IF isEnum /\ FitsLimbs(node.b, w) /\ ~EnumValidBits(e, BitsOfLimbs(node.b, w))
+                   THEN {"InvalidEnumValue"} ELSE {}),
+             PackGroup(BitsOfLimbs(node.b, w), IsBig(d)),
+             IF w > 8 THEN <<[o |-> 0, n |-> w \div 8]>> ELSE <<>>)
 
 EncTyped(d, typeId, node, ov, fuel) ==
   LET t == DeclOf(d, typeId) IN
@@ -476,19 +493,25 @@ EncElem(d, f, node, ov, fuel) ==
   ELSE IF HasDecl(d, f.type) THEN EncTyped(d, f.type, node, ov, fuel)
   ELSE ERes({"Unsupported"}, <<>>)
 
-(* elements i..n: [faults, parts] with parts = sequence of element encodings *)
+(* elements i..n: [faults, parts, pchunks]: element encodings and their chunk lists *)
 EncElemsFrom(d, f, items, i, ov, fuel) ==
-  IF i > Len(items) THEN [faults |-> {}, parts |-> <<>>]
+  IF i > Len(items) THEN [faults |-> {}, parts |-> <<>>, pchunks |-> <<>>]
   ELSE LET r == EncElem(d, f, items[i], ov, fuel)
            rest == EncElemsFrom(d, f, items, i + 1, ov, fuel)
-       IN [faults |-> r.faults \cup rest.faults, parts |-> <<r.bytes>> \o rest.parts]
+       IN [faults |-> r.faults \cup rest.faults, parts |-> <<r.bytes>> \o rest.parts,
+           pchunks |-> <<r.chunks>> \o rest.pchunks]
 
-(* the array proper (no padding): [faults, parts] *)
+(* chunk list of the concatenation of parts i.., the first starting at off *)
+PartChunks(parts, pchunks, i, off) ==
+  IF i > Len(parts) THEN <<>>
+  ELSE Shift(pchunks[i], off) \o PartChunks(parts, pchunks, i + 1, off + Len(parts[i]))
+
+(* the array proper (no padding): [faults, parts, pchunks] *)
 EncArrayParts(d, f, val, ov, fuel) ==
-  IF ~Has(val, f.id) THEN [faults |-> {"BadValue"}, parts |-> <<>>]
+  IF ~Has(val, f.id) THEN [faults |-> {"BadValue"}, parts |-> <<>>, pchunks |-> <<>>]
   ELSE LET node == Get(val, f.id) IN
        IF node.t # "a" \/ (f.count >= 0 /\ Len(node.c) # f.count)
-       THEN [faults |-> {"BadValue"}, parts |-> <<>>]
+       THEN [faults |-> {"BadValue"}, parts |-> <<>>, pchunks |-> <<>>]
        ELSE EncElemsFrom(d, f, node.c, 1, ov, fuel)
 
 FieldNamed(decl, name) ==
@@ -562,10 +585,16 @@ EncBits(d, decl, i, val, pl, ov, fuel) ==
 PushBits(d, st, bits) ==
   LET cb == st.cb \o bits IN
   IF Len(cb) % 8 = 0
-  THEN [st EXCEPT !.out = @ \o PackGroup(cb, IsBig(d)), !.cb = <<>>]
+  THEN [st EXCEPT !.out = @ \o PackGroup(cb, IsBig(d)), !.cb = <<>>,
+                  !.chunks = IF Len(cb) > 8 THEN Append(@, [o |-> Len(st.out), n |-> Len(cb) \div 8]) ELSE @]
   ELSE [st EXCEPT !.cb = cb]
 
-EncField(d, decl, i, st, val, pl, ov, fuel) ==
+AppendRes(st, r) ==
+  [st EXCEPT !.out = @ \o r.bytes, !.faults = @ \cup r.faults,
+             !.chunks = @ \o Shift(r.chunks, Len(st.out))]
+
+(* pl, plc: the payload octets of this level and their chunk list *)
+EncField(d, decl, i, st, val, pl, plc, ov, fuel) ==
   LET f == decl.fields[i] IN
   IF f.kind \in {"padding", "checksum_start"} THEN st
   ELSE IF IsBitfield(d, f) THEN
@@ -576,11 +605,10 @@ EncField(d, decl, i, st, val, pl, ov, fuel) ==
      IF ~Has(val, f.id) THEN EFault(st, "BadValue")
      ELSE LET node == Get(val, f.id) IN
           IF node.t = "n" THEN st
-          ELSE LET r == IF f.kind = "scalar" THEN EncScalarLike(d, FALSE, f, f.width, node)
-                        ELSE IF f.kind = "typedef" /\ HasDecl(d, f.type)
-                        THEN EncTyped(d, f.type, node, ov, fuel)
-                        ELSE ERes({"Unsupported"}, <<>>)
-               IN [st EXCEPT !.out = @ \o r.bytes, !.faults = @ \cup r.faults]
+          ELSE AppendRes(st, IF f.kind = "scalar" THEN EncScalarLike(d, FALSE, f, f.width, node)
+                             ELSE IF f.kind = "typedef" /\ HasDecl(d, f.type)
+                             THEN EncTyped(d, f.type, node, ov, fuel)
+                             ELSE ERes({"Unsupported"}, <<>>))
   ELSE IF f.kind = "array" THEN
      (* Ref: padding: zeros up to N octets; longer than N is an error *)
      LET r == EncArrayParts(d, f, val, ov, fuel)
@@ -591,20 +619,21 @@ EncField(d, decl, i, st, val, pl, ov, fuel) ==
          key == <<decl.id, i + 1>>
          fill2 == IF key \in DOMAIN ov /\ fill # <<>> THEN [k \in 1..Len(fill) |-> 255] ELSE fill
      IN [st EXCEPT !.out = @ \o bytes \o fill2,
-                   !.faults = @ \cup r.faults \cup (IF over THEN {"SizeOverflow"} ELSE {})]
-  ELSE IF IsPayloadField(f) THEN [st EXCEPT !.out = @ \o pl]
+                   !.faults = @ \cup r.faults \cup (IF over THEN {"SizeOverflow"} ELSE {}),
+                   !.chunks = @ \o PartChunks(r.parts, r.pchunks, 1, Len(st.out))]
+  ELSE IF IsPayloadField(f) THEN
+     [st EXCEPT !.out = @ \o pl, !.chunks = @ \o Shift(plc, Len(st.out))]
   ELSE IF f.kind = "typedef" THEN
      IF ~Has(val, f.id) \/ ~HasDecl(d, f.type) THEN EFault(st, "BadValue")
-     ELSE LET r == EncTyped(d, f.type, Get(val, f.id), ov, fuel)
-          IN [st EXCEPT !.out = @ \o r.bytes, !.faults = @ \cup r.faults]
+     ELSE AppendRes(st, EncTyped(d, f.type, Get(val, f.id), ov, fuel))
   ELSE EFault(st, "Unsupported")
 
-EncFieldsFrom(d, decl, i, st, val, pl, ov, fuel) ==
+EncFieldsFrom(d, decl, i, st, val, pl, plc, ov, fuel) ==
   IF i > Len(decl.fields) THEN st
-  ELSE EncFieldsFrom(d, decl, i + 1, EncField(d, decl, i, st, val, pl, ov, fuel), val, pl, ov, fuel)
+  ELSE EncFieldsFrom(d, decl, i + 1, EncField(d, decl, i, st, val, pl, plc, ov, fuel), val, pl, plc, ov, fuel)
 
-EncScope(d, decl, val, pl, ov, fuel) ==
-  LET st == EncFieldsFrom(d, decl, 1, EncInit, val, pl, ov, fuel)
+EncScope(d, decl, val, pl, plc, ov, fuel) ==
+  LET st == EncFieldsFrom(d, decl, 1, EncInit, val, pl, plc, ov, fuel)
   IN IF st.cb # <<>> THEN EFault(st, "Unsupported") ELSE st
 
 (* Ref: constrained parent fields carry their constant *)
@@ -614,14 +643,14 @@ WithConstants(d, id, v) ==
   IN S(v.n \o [i \in 1..Len(cs) |-> cs[i].id],
        v.c \o [i \in 1..Len(cs) |-> U(StripZeros(ConsLimbs(d, chain, cs[i])))])
 
-RECURSIVE EncLevels(_, _, _, _, _, _, _, _)
+RECURSIVE EncLevels(_, _, _, _, _, _, _, _, _)
 (* levels k down to `stop`: the bytes of level k+1.. become the payload of level k *)
-EncLevels(d, chain, k, stop, val, pl, ov, fuel) ==
-  LET st == EncScope(d, chain[k], val, pl, ov, fuel)
+EncLevels(d, chain, k, stop, val, pl, plc, ov, fuel) ==
+  LET st == EncScope(d, chain[k], val, pl, plc, ov, fuel)
       miss == IF k < Len(chain) /\ ~HasPayload(chain[k]) /\ pl # <<>> THEN {"Unsupported"} ELSE {}
-  IN IF k <= stop THEN ERes(st.faults \cup miss, st.out)
-     ELSE LET up == EncLevels(d, chain, k - 1, stop, val, st.out, ov, fuel)
-          IN ERes(st.faults \cup miss \cup up.faults, up.bytes)
+  IN IF k <= stop THEN EResC(st.faults \cup miss, st.out, st.chunks)
+     ELSE LET up == EncLevels(d, chain, k - 1, stop, val, st.out, st.chunks, ov, fuel)
+          IN EResC(st.faults \cup miss \cup up.faults, up.bytes, up.chunks)
 
 EncodeTypeF(d, id, v, ov, fuel) ==
   IF fuel = 0 THEN ERes({"Unsupported"}, <<>>)
@@ -632,8 +661,18 @@ EncodeTypeF(d, id, v, ov, fuel) ==
       val == WithConstants(d, id, v)
       plOk == ~HasPayload(leaf) \/ (Has(v, "payload") /\ Get(v, "payload").t = "b")
       pl == IF HasPayload(leaf) /\ plOk THEN Get(v, "payload").b ELSE <<>>
-      r == EncLevels(d, chain, Len(chain), 1, val, pl, ov, fuel - 1)
-  IN IF plOk THEN r ELSE ERes(r.faults \cup {"BadValue"}, r.bytes)
+      r == EncLevels(d, chain, Len(chain), 1, val, pl, <<>>, ov, fuel - 1)
+  IN IF plOk THEN r ELSE EResC(r.faults \cup {"BadValue"}, r.bytes, r.chunks)
+
+(* Endianness duality (C17): reverse the octets of every chunk *)
+Dual(bytes, chunks) ==
+  [j \in 1..Len(bytes) |->
+     IF \E c \in 1..Len(chunks) : j > chunks[c].o /\ j <= chunks[c].o + chunks[c].n
+     THEN LET c == CHOOSE x \in 1..Len(chunks) : j > chunks[x].o /\ j <= chunks[x].o + chunks[x].n
+          IN bytes[chunks[c].o + (chunks[c].n + 1 - (j - chunks[c].o))]
+     ELSE bytes[j]]
+
+Twin(d) == [d EXCEPT !.endian = IF @ = "big" THEN "little" ELSE "big"]
 
 EncodeWith(d, id, v, ov) == EncodeTypeF(d, id, v, ov, 6)
 EncodeType(d, id, v) == EncodeWith(d, id, v, EmptyFn)
